@@ -264,6 +264,77 @@ def check_used_set(ctx):
               "stopping an application drops its unit module without removing every mapped physical address from the used set", repo.loc(m, cq))
 
 
+STATE_WRITERS = {"_set_register", "_set_array_entry", "_set_array_slice", "_initialize_array", "_get_unused_physical_qubit", "_reserve_physical_qubit", "_clear_phys_qubit_in_memory"}
+MUTATORS = ("add", "remove", "pop", "append", "clear", "update", "discard", "insert", "extend", "setdefault", "popitem")
+
+
+def check_fault_atomicity(ctx, rule="C13.U"):
+    """A fault leaves the state as it was: inside one executor method no state effect precedes an explicit `raise` on any
+    path (effects: writes to registers / arrays / unit modules / the in-use set / the program counter / the controller's
+    tables, directly or through a callee that has such an effect).  The order 'check, then write' is the repository's own
+    discipline: the rule has no exception on the clean tree."""
+    import networkx as nx
+    from ..flow import CFG, header_parts
+    repo = ctx.repo
+    ex = repo.get_class(EXE, "Executor")
+    m = ex.module
+
+    def direct_effect(x, ums):
+        if isinstance(x, ast.Call) and isinstance(x.func, ast.Attribute):
+            if A.is_self_attr(x.func) and x.func.attr in STATE_WRITERS:
+                return x.func.attr
+            if x.func.attr in MUTATORS and A.is_self_attr(x.func.value):
+                return A.norm(x.func)
+        if isinstance(x, (ast.Assign, ast.AugAssign)):
+            for t in (x.targets if isinstance(x, ast.Assign) else [x.target]):
+                if isinstance(t, ast.Subscript):
+                    b = t.value
+                    while isinstance(b, ast.Subscript):
+                        b = b.value
+                    if A.is_self_attr(b) or (isinstance(b, ast.Name) and b.id in ums):
+                        return "store " + A.norm(t)
+                if A.is_self_attr(t):
+                    return "store " + A.norm(t)
+        return None
+
+    eff = {name: any(direct_effect(x, unit_module_locals(fn)) for x in ast.walk(fn)) for name, fn in ex.methods.items()}
+    changed = True
+    while changed:
+        changed = False
+        for name, fn in ex.methods.items():
+            if not eff[name] and any(isinstance(c, ast.Call) and A.is_self_attr(c.func) and eff.get(c.func.attr) for c in ast.walk(fn)):
+                eff[name] = changed = True
+    n_raising = 0
+    for name, fn in sorted(ex.methods.items()):
+        if name == "__init__" or not any(isinstance(x, (ast.Raise, ast.Assert)) for x in A.body_nodes(fn)):
+            continue
+        n_raising += 1
+        ctx.fn(f"Executor.{name}")
+        cfg = CFG(fn)
+        ums = unit_module_locals(fn)
+        bad = []
+        for st in A.body_nodes(fn):
+            if not isinstance(st, ast.stmt) or isinstance(st, (ast.Raise, ast.Assert)):
+                continue
+            n = cfg.node(st)
+            if n is None:
+                continue
+            what = None
+            for p_ in header_parts(st):
+                for x in ast.walk(p_):
+                    d = direct_effect(x, ums)
+                    if d:
+                        what = what or d
+                    elif isinstance(x, ast.Call) and A.is_self_attr(x.func) and eff.get(x.func.attr):
+                        what = what or f"call of {x.func.attr} (which changes state)"
+            if what and nx.has_path(cfg.g, n, cfg.raise_exit):
+                bad.append(f"{what} at line {st.lineno}")
+        ctx.check(rule, f"{name}:no-state-change-before-a-raise", not bad,
+                  f"Executor.{name} changes state ({'; '.join(bad)[:200]}) and can then still `raise`: the faulting instruction is no longer without effect "
+                  "(e.g. a rejected allocation leaves a physical qubit marked as in use)", repo.loc(m, fn), trivial=True, sample={"function": name} if n_raising <= 2 else None)
+    ctx.anchor(rule, "executor methods with an explicit raise or assert", n_raising, 15)
+
+
 def check_indexing(ctx):
     repo = ctx.repo
     ex = repo.get_class(EXE, "Executor")
@@ -437,8 +508,12 @@ def _subst_len(cond, value):
 def run(ctx):
     check_lifecycle(ctx)
     check_used_set(ctx)
+    check_fault_atomicity(ctx, "C13.U")
     check_indexing(ctx)
     check_alloc_guards(ctx, "C13.G")
+    # 0 is an ordinary id / value / address: nothing int-valued may be tested by truthiness (nqsa/truth.py)
+    from .. import truth
+    truth.check(ctx, "C13.Z", ['netqasm.backend.executor', 'netqasm.backend.qnodeos'])
 
 
 X = "netqasm/backend/executor.py"
